@@ -9,7 +9,7 @@
 (* Reset lines, which rebuild M from the abstract descriptor with the      *)
 (* specification's own generator model.                                    *)
 (***************************************************************************)
-EXTENDS Judge, GenContract, Json, IOUtils, TLCExt
+EXTENDS Judge, RunModel, Json, IOUtils, TLCExt
 
 TraceLog == ndJsonDeserialize(IOEnv.VERIF_TRACE)
 
@@ -207,7 +207,16 @@ TraceReset ==
                           ELSE LET bb == BuildRoot(d, [cfg EXCEPT !.exclude = <<>>], meta.root)
                                IN IF bb.ok THEN SetToSeq(Occ(bb.m, meta.pair.exclkey, <<>>, <<>>)) ELSE <<>>,
                   step |-> 0]
-        /\ ReportE(viol, reg /\ SchemaTT(Line.schema) # BuildRootImpl(d, cfg, meta.root).m.tt, "schema type vs model",
+        /\ ReportE(viol,
+                   \/ (reg /\ SchemaTT(Line.schema) # BuildRootImpl(d, cfg, meta.root).m.tt)
+                   \* the observed run against the run machine (RunModel.tla / GenRun.tla): exit status, order of the files processed,
+                   \* warnings, order of the emitted functions, package clause
+                   \/ LET r == RunOut(d, cfg)
+                          topf == SelectSeq(gen.funcs, LAMBDA f : ~f.method)
+                      IN \/ (gen.exit = 0) # (r.exit = 0)
+                         \/ (r.exit = 0 /\ (gen.processing # r.processing \/ gen.warned # r.warned \/ gen.package # r.package
+                                             \/ [i \in DOMAIN topf |-> topf[i].name] # r.funcs)),
+                   "run / schema type vs model",
                    {p \in {"C01", "C12", "C18", "C16", "C13"} : p \in W} \cup {p \in {"C02", "C10", "C11", "C17"} : p \in W /\ reg}
                    \cup {meta.gchecks[i].p : i \in DOMAIN meta.gchecks}
                    \cup {p \in {"C14", "C15", "C16"} : p \in W /\ cfg.alts # <<>>})
